@@ -1,6 +1,6 @@
 SPECIFICATION Spec
 CONSTANTS
   Mode = "gen"
-  Depth = 0
-INVARIANT ParserTotal
+  Returns = FALSE
+  Groups = {1, 2, 3}
 CHECK_DEADLOCK FALSE
